@@ -89,7 +89,6 @@ func main() {
 			fmt.Fprintln(os.Stderr, err)
 			os.Exit(2)
 		}
-		defer os.RemoveAll(tmp)
 		for i, c := range core.Configs {
 			wg.Add(1)
 			go func(i int, c core.Config) {
@@ -114,6 +113,7 @@ func main() {
 			}(i, c)
 		}
 		wg.Wait()
+		os.RemoveAll(tmp) // os.Exit below skips deferred calls
 		res := results[0]
 		if res.Extra == nil {
 			res.Extra = map[string]any{}
